@@ -194,7 +194,7 @@ Section Keep.
     destruct (take_blob T hc (rs_table T st) (n_targets n)) as [b t'] eqn:Etb.
     pose proof (C01Build.take_blob_fst T hc _ _ _ _ Etb) as Hfst.
     assert (clock_ok teqb (rs_world T st)) as Hk by apply Hinv.
-    destruct (InvProofs.take_blob_ok T teqb hc _ _ _ _ _ Hk Htbl Etb) as [Hb _].
+    destruct (InvProofs.take_blob_ok T teqb hc teqb_spec _ _ _ _ _ Htbl Etb) as [Hb _].
     destruct (read_history T teqb hr (rs_world T st) (n_rule n)) as [h|]; [|discriminate].
     destruct (all_some _) as [tickets|].
     2:{ intro H. injection H as <-. right. auto. }
